@@ -114,6 +114,33 @@ pub fn check_cancel(sc: &Scenario, tr: &Trace) -> Result<&'static str, Fail> {
         }
         return Ok("cancel-not-while-active");
     }
+    // (0') once the cancel has taken effect at the receiver - at the request itself when the receiver's user cancels, at the arrival
+    // of the cancel notice otherwise - that transaction does not go on to deliver the file (a second transaction for the same id,
+    // started by stragglers after the first one ended, is not "that transaction")
+    {
+        let t_probe = tr.probes.iter().map(|p| p.t).min().unwrap_or(u64::MAX);
+        let instances = tr
+            .inds_of(p.to, id)
+            .iter()
+            .filter(|r| r.t < t_probe && matches!(&r.ind, Indication::Report(rep) if rep.state == TransactionState::Active))
+            .count();
+        let t_eff = if who == p.to {
+            Some(t_cancel)
+        } else {
+            // (a delivered datagram can wait in the transport handler's inbox: the moment the notice is processed is the
+            // receiver's own Finished indication with the cancel condition)
+            tr.finished_inds(p.to, id).iter().filter(|(_, f)| f.report.condition == Condition::CancelReceived).map(|x| x.0).min()
+        };
+        if let (Some(te), true) = (t_eff, instances <= 1) {
+            if let Some(ts) = receiver_success_times.iter().find(|t| **t > te + 2) {
+                return Err(fail(
+                    tr,
+                    "delivered-after-the-cancel-took-effect",
+                    format!("the cancel (issued at entity {who} at {t_cancel} ms) took effect at the receiver at {te} ms, yet the receiver reported a complete delivery at {ts} ms"),
+                ));
+            }
+        }
+    }
     // (0) a cancelled sender stops transmitting the file: after the request (plus what was already in the transport pipeline)
     // no Metadata or file data leaves it - data sent after the cancel could even complete the delivery that was cancelled
     if who == p.from {
